@@ -19,6 +19,18 @@ def run(run_, pkg, tier):
     run_.trusted_base = ["call resolution by class hierarchy", "spsolve/print have no effect on graph state"]
     run_.assumptions = ["max_iter >= 1 (property quantifier)", "consecutive calls differ from one long call only in that no convergence "
                         "test is made at a call boundary (there is no previous chi^2 in a new call) -- stated, not flagged"]
+    # premise of T1: the value the assembly routine stores in _chi2 (tagged CUR above) really is the graph's chi^2 of the current
+    # poses -- all edges, also those between fixed vertices -- and equals Graph.calc_chi2()
+    from ..assembly import SCENARIOS, assembly_obligation
+    from ..algebra import run_tasks, record
+    gfn = pkg.method("Graph", "_calc_chi2_gradient_hessian")
+    tasks = []
+    for scn in SCENARIOS:
+        if scn.name in ("free", "fix-first", "fixed-two", "all-fixed", "parallel-only"):
+            key = "C12-T1/chi2-of-assembly/%s" % scn.name
+            if run_.wants(key):
+                tasks.append((key, "C12-T1-chi2-is-graph-chi2", assembly_obligation(scn, chi2_only=True), "%s:%d" % (gfn._gs_module, gfn.lineno)))
+    record(run_, tasks, run_tasks(pkg, tasks))
     oa = optim_rules.analyse(pkg)
     n = optim_rules.report(run_, oa, ["C12-"])
     run_.floor("C12 rule instances", n, 40)
